@@ -215,6 +215,22 @@ PROPS["C15"] = dict(
                  "besides the fields of the damaged lines, their one- and two-character prefixes and their tails are tried (what a write torn inside a delimiter leaves), incl. the empty string"],
 )
 
+PROPS["C18"] = dict(
+    level="exploration",
+    instrument=ENGINE_FILES,
+    budget=dict(quick=25, thorough=600),
+    rule="histories of 3-12 statements fed to ONE grammar.Parser over ONE grammar.SemanticBQL() instance: statements of all eight kinds (structured generator and random derivations of the "
+         "exported grammar table, with HAVING / ORDER BY / GROUP BY / bounds / LIMIT) interleaved with aborted statements - cut after any token, or with one token deleted / duplicated / "
+         "swapped / replaced / damaged (so that semantic hooks hold partially accumulated state: a subject without predicate, a BETWEEN without its second bound, an open alias keyword). "
+         "Oracle: for every statement of the history the accept / reject outcome and the canonical rendering of everything the statement means (kind, graph lists, data triples, pattern "
+         "clauses with all aliases and bounds, filters, projections, GROUP BY, ORDER BY, HAVING tokens, global bounds, LIMIT, construct templates) equal those of a FRESH parser on the same "
+         "text. Non-trivial: at least one accepted statement after at least one abort; distinct = distinct histories",
+    components_real=["bql/grammar parser + LLk, bql/lexer, bql/semantic hooks and Statement (real code)"],
+    components_stub=["the statement history (aborted operations on a stateful object) is the injected fault sequence; no scheduler is involved"],
+    assumptions=["only the second sentence of C18 (no state between statements) is addressed; the first (accepted language = grammar) is a pure recognition claim",
+                 "the fresh-parser outcome is the reference: a statement a fresh parser mis-parses the same way is not detected here"],
+)
+
 # ---------------------------------------------------------------------------
 # Texts for MANIFEST.json (level claimed, trusted base, technique)
 MANIFEST_TEXT = {}
@@ -282,3 +298,7 @@ MANIFEST_TEXT["C15"] = dict(
     text="fault enumeration on the simulated disk: every truncation point (and sampled flips, line duplications and drops) of each exported image is fed to the reader and the parsers",
     note="trusted base: the reference line recogniser written from the documentation, structural keys; images are sampled, truncation points enumerated",
     technique="deterministic fault injection on a simulated disk image (torn write at every byte, bit flips, duplicated / lost lines) + reader / parser oracles (no panic, no nil-nil, re-parse, prefix-loaded)")
+MANIFEST_TEXT["C18"] = dict(
+    text="seeded exploration of statement histories with aborts at arbitrary tokens on one stateful parser / hook set, each outcome compared with a fresh parser",
+    note="trusted base: the canonical statement rendering through semantic.Statement's exported accessors; only the history clause of C18 is claimed",
+    technique="deterministic fault injection on a stateful object: aborted operations (statement cut / damaged at any token) interleaved with complete ones, differential oracle against a fresh instance")
